@@ -519,7 +519,30 @@ def b_sorted_strs(eng, n, st):
     return sorted_list(eng, v, n, st)
 
 
+def b_shift_above(eng, n, st):
+    """shift_above(arr, u, d): the array x -> arr[x] + (d if x > u else 0)   (ghost array-wide update)"""
+    a = eng.ev(n.args[0], st)
+    u = eng.ev(n.args[1], st)
+    d = eng.ev(n.args[2], st)
+    r = z3.FreshConst(a.ty.sort(), "shifted")
+    x = z3.FreshConst(z3.IntSort(), "sx")
+    st.assume(z3.ForAll([x], z3.Select(r, x) == z3.Select(a.t, x) + z3.If(x > u.t, d.t, 0)))
+    return Val(r, a.ty)
+
+
+def l_sys_exit(eng, n, st):
+    code = eng.ev(n.args[0], st) if n.args else IntV(0)
+    st.env["__exit_code__"] = code
+    raise RaiseNow("SystemExit")
+
+
+class RaiseNow(Exception):
+    def __init__(self, exc):
+        self.exc = exc
+
+
 BUILTINS = {
+    "shift_above": b_shift_above,
     "float": b_float,
     "sorted_strs": b_sorted_strs,
     "same": b_same,
@@ -588,6 +611,7 @@ def l_re_match(eng, n, st):
 
 
 LIBCALLS["re.match"] = l_re_match
+LIBCALLS["sys.exit"] = l_sys_exit
 
 
 # ---- methods on values ---------------------------------------------------------------------------------
@@ -811,7 +835,7 @@ def m_linesink_write(eng, recv, n, st):
 
 METHODS = {
     ("ObjT", "write"): m_linesink_write,
-    ("ListT", "write"): m_sink_write, ("ListT", "tell"): m_sink_tell, ("StrT", "rstrip"): m_str_rstrip, ("StrT", "isdigit"): m_str_isdigit,
+    ("ListT", "write"): m_sink_write, ("ListT", "put"): m_sink_write, ("ListT", "tell"): m_sink_tell, ("StrT", "rstrip"): m_str_rstrip, ("StrT", "isdigit"): m_str_isdigit,
     ("StrT", "decode"): m_str_decode, ("StrT", "split"): m_str_split_tab,
     ("StrT", "startswith"): b_startswith,
     ("ListT", "append"): m_list_append, ("EmptyListT", "append"): m_list_append, ("ListT", "reverse"): m_list_reverse,
